@@ -16,14 +16,23 @@
 (*   SetOrder   the zero-filled species are appended in set-iteration      *)
 (*              order (hash seed dependent)                                *)
 (*   Timestamps Excel containers embed the time of writing                 *)
+(*   ComponentMemo  a component object shared by two models (an energy     *)
+(*              callable given to two Potential objects) remembers the     *)
+(*              numerical-differentiation step of the first model that     *)
+(*              wrapped it (not the tree as it is: the realistic way to    *)
+(*              make a model's table depend on what was built before)      *)
 (***************************************************************************)
 EXTENDS Integers, Sequences, FiniteSets, TLC, SequencesExt, FiniteSetsExt, Json, IOUtils
 
-CONSTANTS Seeds, MaxOps, SetOrder, Timestamps
+CONSTANTS Seeds, MaxOps, SetOrder, Timestamps, ComponentMemo
 
-Models == { [id |-> 1, declared |-> <<2>>, filled |-> {1, 3, 4}, excel |-> FALSE],     \* under-specified EAM: zero-filling needed
-            [id |-> 2, declared |-> <<3, 1>>, filled |-> {}, excel |-> FALSE],        \* fully specified
-            [id |-> 3, declared |-> <<1>>, filled |-> {2}, excel |-> TRUE] }
+\* comp: a component object the model shares with other models (0: none), h: the step it asks that component to be differentiated with
+Models == { [id |-> 1, declared |-> <<2>>, filled |-> {1, 3, 4}, excel |-> FALSE, comp |-> 0, h |-> 0],     \* under-specified EAM: zero-filling needed
+            [id |-> 2, declared |-> <<3, 1>>, filled |-> {}, excel |-> FALSE, comp |-> 0, h |-> 0],        \* fully specified
+            [id |-> 3, declared |-> <<1>>, filled |-> {2}, excel |-> TRUE, comp |-> 0, h |-> 0],
+            [id |-> 4, declared |-> <<>>, filled |-> {}, excel |-> FALSE, comp |-> 1, h |-> 50],           \* Python-API pair model, callable f, coarse step
+            [id |-> 5, declared |-> <<>>, filled |-> {}, excel |-> FALSE, comp |-> 1, h |-> 1] }           \* the same callable object, default step
+Comps == {mm.comp : mm \in Models} \ {0}
 ModelOf(i) == CHOOSE mm \in Models : mm.id = i
 Ids == {mm.id : mm \in Models}
 
@@ -32,33 +41,39 @@ Perm(S, seed) == LET sorted == SetToSortSeq(S, <) IN
                  IF seed % 2 = 0 THEN sorted ELSE Reverse(sorted)
 
 \* the statement: the output is a function of the model alone
-CanonicalOrder(mm) == mm.declared \o SetToSortSeq(mm.filled, <)
+CanonicalOrder(mm) == mm.declared \o SetToSortSeq(mm.filled, <) \o (IF mm.comp # 0 THEN <<mm.h>> ELSE <<>>)
 
-VARIABLES seed, clock, built, last, n
-vars == <<seed, clock, built, last, n>>
+VARIABLES seed, clock, built, last, n,
+          memo       \* ghost: the step a memoising component would remember (consulted only under ComponentMemo)
+vars == <<seed, clock, built, last, n, memo>>
 
 Init == /\ seed \in Seeds /\ clock = 0 /\ built = [i \in Ids |-> <<>>] /\ last = [op |-> "none", id |-> 0, out |-> <<>>] /\ n = 0
+        /\ memo = [c \in Comps |-> 0]
 
 \* the element order the builder produces
 BuildOrder(mm) == mm.declared \o (IF SetOrder THEN Perm(mm.filled, seed) ELSE SetToSortSeq(mm.filled, <))
+EffectiveStep(mm) == IF ComponentMemo /\ memo[mm.comp] # 0 THEN memo[mm.comp] ELSE mm.h
 
 Build(i) == /\ n < MaxOps
-            /\ built' = [built EXCEPT ![i] = BuildOrder(ModelOf(i))]
+            /\ LET mm == ModelOf(i) IN
+               /\ built' = [built EXCEPT ![i] = BuildOrder(mm) \o (IF mm.comp # 0 THEN <<EffectiveStep(mm)>> ELSE <<>>)]
+               /\ memo' = IF mm.comp # 0 /\ memo[mm.comp] = 0 THEN [memo EXCEPT ![mm.comp] = mm.h] ELSE memo
             /\ last' = [op |-> "build", id |-> i, out |-> <<>>]
             /\ n' = n + 1 /\ clock' = clock + 1 /\ UNCHANGED seed
 
 Write(i) == /\ n < MaxOps /\ built[i] # <<>>
             /\ last' = [op |-> "write", id |-> i,
                         out |-> IF ModelOf(i).excel /\ Timestamps THEN built[i] \o <<100 + clock>> ELSE built[i]]
-            /\ n' = n + 1 /\ clock' = clock + 1 /\ UNCHANGED <<seed, built>>
+            /\ n' = n + 1 /\ clock' = clock + 1 /\ UNCHANGED <<seed, built, memo>>
 
 Eval(i) == /\ n < MaxOps /\ built[i] # <<>>
            /\ last' = [op |-> "eval", id |-> i, out |-> <<>>]
-           /\ n' = n + 1 /\ clock' = clock + 1 /\ UNCHANGED <<seed, built>>
+           /\ n' = n + 1 /\ clock' = clock + 1 /\ UNCHANGED <<seed, built, memo>>
 
 \* a fresh process: another hash seed, nothing built
 NewProcess == /\ n < MaxOps /\ seed' \in Seeds /\ built' = [i \in Ids |-> <<>>]
               /\ last' = [op |-> "none", id |-> 0, out |-> <<>>] /\ n' = n + 1 /\ clock' = clock + 1
+              /\ memo' = [c \in Comps |-> 0]
 
 Next == (\E i \in Ids : Build(i) \/ Write(i) \/ Eval(i)) \/ NewProcess
 Spec == Init /\ [][Next]_vars
